@@ -196,3 +196,50 @@ impl TopicAliasSend {
         self.max_alias
     }
 }
+
+/// Verification hook: canonical copy of the send-side alias table.
+#[cfg(feature = "verif-hooks")]
+#[derive(Debug, Clone, PartialEq, Eq, Hash)]
+pub struct VerifTopicAliasSendState {
+    pub max_alias: TopicAliasType,
+    /// alias -> topic in LRU order (least recently used first)
+    pub alias_to_topic: Vec<(TopicAliasType, String)>,
+    /// topic -> aliases (per-topic order kept), sorted by topic
+    pub topic_to_aliases: Vec<(String, Vec<TopicAliasType>)>,
+    /// free alias intervals
+    pub free: Vec<(TopicAliasType, TopicAliasType)>,
+}
+
+#[cfg(feature = "verif-hooks")]
+impl TopicAliasSend {
+    pub fn verif_state(&self) -> VerifTopicAliasSendState {
+        let mut t2a: Vec<(String, Vec<TopicAliasType>)> = self
+            .topic_to_aliases
+            .iter()
+            .map(|(k, v)| (k.clone(), v.clone()))
+            .collect();
+        t2a.sort();
+        VerifTopicAliasSendState {
+            max_alias: self.max_alias,
+            alias_to_topic: self
+                .alias_to_topic
+                .iter()
+                .map(|(a, t)| (*a, t.clone()))
+                .collect(),
+            topic_to_aliases: t2a,
+            free: self.value_allocator.verif_intervals().0,
+        }
+    }
+}
+
+#[cfg(feature = "verif-hooks")]
+impl Clone for TopicAliasSend {
+    fn clone(&self) -> Self {
+        Self {
+            max_alias: self.max_alias,
+            alias_to_topic: self.alias_to_topic.clone(),
+            topic_to_aliases: self.topic_to_aliases.clone(),
+            value_allocator: self.value_allocator.clone(),
+        }
+    }
+}
